@@ -123,6 +123,10 @@ func c06Render(p int, e *ex) string {
 		body = e.s + "(" + strings.Join(as, ", ") + ")"
 	case "par":
 		body = "(" + c06Render(0, e.l) + ")"
+	case "gate":
+		// C05, overlap family: the identity function vgate registered by the harness (a scheduling point
+		// inside the evaluation); its meaning, and its encoding for the model, is that of (operand)
+		body = "vgate(" + c06Render(0, e.l) + ")"
 	}
 	if p <= level(e) {
 		return body
@@ -166,7 +170,7 @@ func c06_enc(e *ex) string {
 		return "p " + e.op + " " + c06_enc(e.l) + " " + c06_enc(e.r)
 	case "bin":
 		return "b " + e.op + " " + c06_enc(e.l) + " " + c06_enc(e.r)
-	case "par":
+	case "par", "gate":
 		return "par " + c06_enc(e.l)
 	case "call":
 		s := fmt.Sprintf("f %s %d", hx(e.s), len(e.args))
@@ -239,7 +243,7 @@ func norm(e *ex) *ex {
 	case "cmp", "bin":
 		e.l = norm(e.l)
 		e.r = norm(e.r)
-	case "par":
+	case "par", "gate":
 		e.l = norm(e.l)
 	case "call":
 		for i := range e.args {
@@ -759,6 +763,8 @@ func runC06(tier string, seed uint64, o *Out) error {
 	c06Diff(tier, r, o)
 	c06Malformed(tier, r, o)
 	c06CasePairs(tier, NewRNG(seed*1000003+606), o) // far-away generator state: independent across seeds
+	c06Poisoned(tier, NewRNG(seed*1000003+707), o)
+	c06Pads(tier, NewRNG(seed*1000003+808), o)
 	return nil
 }
 
